@@ -57,6 +57,29 @@ theorem docP_plain : PlainW pyClasses docP ∧ heightW docP ≤ 5 := by
     PlainName, PlainAttr, PlainText, Gap, Ws, heightW, heightWF, wplain]
   decide +kernel
 
+/-- only differently named siblings change places: `RetireSafety` before `PublishSafety` -/
+def docM : WTree :=
+  wrap (.node "ZSK".toList [] [] ['\n'] d2
+    (.cons [' '] d1 (.cons ['\n'] d3 (.cons ['\n'] d4 (.cons ['\n'] d5 (.cons ['\n'] d6
+      (.cons ['\n'] (sigAlg "8") (.cons ['\n'] (sigAlg "10") .nil))))))) ['\n'])
+
+set_option synthInstance.maxSize 8192 in
+set_option synthInstance.maxHeartbeats 2000000 in
+set_option maxRecDepth 4096 in
+theorem docM_plain : PlainW pyClasses docM ∧ heightW docM ≤ 5 := by
+  simp only [docM, wrap, d1, d2, d3, d4, d5, d6, dur, sigAlg, at1, PlainW, PlainWF, PlainWAttrs, AttrWs, occursW, occursWF,
+    PlainName, PlainAttr, PlainText, Gap, Ws, heightW, heightWF, wplain]
+  decide +kernel
+
+/-- `docM` is `doc` with two differently named children of `ZSK` swapped -/
+theorem doc_move : ChildMoveT (eraseT doc) (eraseT docM) := by
+  have hz : ChildMoveL
+      [eraseT d1, eraseT d2, eraseT d3, eraseT d4, eraseT d5, eraseT d6, eraseT (sigAlg "8"), eraseT (sigAlg "10")]
+      [eraseT d2, eraseT d1, eraseT d3, eraseT d4, eraseT d5, eraseT d6, eraseT (sigAlg "8"), eraseT (sigAlg "10")] :=
+    .swap _ _ _ (by decide)
+  exact .node _ _ _ _ _ _ _ _ (.cons (.node _ _ _ _ _ _ _ _ (.cons (.node _ _ _ _ _ _ _ _ (.cons
+    (.node _ _ _ _ _ _ _ _ hz) .nil)) .nil)) .nil)
+
 theorem doc_names : doc.name = "KSR".toList ∧ docP.name = "KSR".toList := ⟨rfl, rfl⟩
 
 /-- `docP` is `doc` with the children of `ZSK` permuted -/
@@ -85,5 +108,32 @@ theorem doc_loads (gs : GlueSwitches) :
       .ok ("4fe9bb10", 99, ".", [p10, p8], []) := by
   obtain ⟨a, b, c, d⟩ := gs
   cases a <;> cases b <;> cases c <;> cases d <;> exact ⟨by decide +kernel, by decide +kernel⟩
+
+theorem doc_algs (gs : GlueSwitches) :
+    (requestFromDict gs (.dict (dictOf (eraseT doc)))).map (·.zskPolicy.algorithms) = .ok [p8, p10] ∧
+    (requestFromDict gs (.dict (dictOf (eraseT docP)))).map (·.zskPolicy.algorithms) = .ok [p10, p8] := by
+  obtain ⟨a, b, c, d⟩ := gs
+  cases a <;> cases b <;> cases c <;> cases d <;> exact ⟨by decide +kernel, by decide +kernel⟩
+
+/-- the first document's standard reading loads -/
+theorem doc_request (gs : GlueSwitches) :
+    ∃ r, requestFromDict gs (.dict (dictOf (eraseT doc))) = .ok r ∧ r.zskPolicy.algorithms = [p8, p10] := by
+  have h := (doc_algs gs).1
+  cases hr : requestFromDict gs (.dict (dictOf (eraseT doc))) with
+  | error e => rw [hr] at h; cases h
+  | ok r =>
+    rw [hr] at h
+    simp only [Except.map, Except.ok.injEq] at h
+    exact ⟨r, rfl, h⟩
+
+/-- the two readings differ as values (lists of same-named siblings in document order) — `DictPerm` is not `=` -/
+theorem doc_dict_ne : dictOf (eraseT docP) ≠ dictOf (eraseT doc) := by decide +kernel
+
+/-- a loader built from `parse_ksr` returns what the glue returns on the parsed dict -/
+theorem fromXmlWith_ok {α} {cls : Classes} {sw : Switches} {glue : XVal → Res α} {x : List Char} {d : Dict} {r : α}
+    (h : parseKsr cls sw x = .ok d) (hg : glue (.dict d) = .ok r) : fromXmlWith cls sw glue x = .done (.ok r) := by
+  unfold fromXmlWith
+  rw [h]
+  exact congrArg Load.done hg
 
 end Kskm.Xml.SiblingExample
